@@ -16,10 +16,10 @@ Notation query := (query key mt ab).
 
 (* the candidates of a query: the children of the parents reached (those carrying the key, for
    get_instances) and the other elements reached *)
-Definition is_cand (nk : bool) (parents : list ((str -> option id) * list id)) (others : list id) (e : id) : Prop :=
+Definition is_cand (nk : bool) (parents : list ((str -> list id) * list id)) (others : list id) (e : id) : Prop :=
   (In e (cands parents) /\ keyok key nk e) \/ In e others.
 
-Definition parents_ok (nk : bool) (parents : list ((str -> option id) * list id)) : Prop :=
+Definition parents_ok (nk : bool) (parents : list ((str -> list id) * list id)) : Prop :=
   Forall (fun pr => parent_ok key mt ab nk (fst pr) (snd pr)) parents.
 
 Lemma good_pats_perm pats pats' : Permutation pats pats' -> good_pats ab pats -> good_pats ab pats'.
@@ -34,14 +34,13 @@ Theorem query_spec nk bk parents others pats :
 Proof.
   intros Hok Hg e. unfold Filter.query, is_cand. rewrite in_app_iff.
   pose proof (stageA_spec key mt ab nk parents pats Hok Hg [] e) as HA. cbn [In] in HA.
-  destruct bk as [|d].
-  - rewrite (stageB_found_spec key mt ab abs_eq). rewrite HA. split.
-    + intros [H|(Hne & [H|(Hf & p & Hp & Hb & Hm)])]; [tauto|tauto|].
-      apply (stageA_spec key mt ab nk parents pats Hok Hg [] e) in Hf. cbn [In] in Hf. tauto.
+  destruct bk.
+  - rewrite (stageB_found_spec key mt ab abs_eq), HA. split.
+    + intros [H|H]; tauto.
     + intros [[H|H] Hm]; [left; tauto|].
       destruct (in_dec Nat.eq_dec e (stageA key mt ab nk parents pats [])) as [Hi|Hi].
       * left. apply HA. exact Hi.
-      * right. split; [intro E; rewrite E in H; exact H|]. left. tauto.
+      * right. tauto.
   - rewrite (stageB_names_spec key mt ab abs_eq), HA. split.
     + intros [H|H]; tauto.
     + intros [[H|H] Hm]; [left; tauto|].
@@ -50,12 +49,14 @@ Proof.
       * right. tauto.
 Qed.
 
-(* get_ports / get_cables: nothing is yielded twice *)
-Theorem query_NoDup nk parents others pats : NoDup (query nk (BNames true) parents others pats).
+(* nothing is yielded twice *)
+Theorem query_NoDup nk bk parents others pats : NoDup (query nk bk parents others pats).
 Proof.
-  unfold Filter.query. apply NoDup_app_iff. split; [apply stageA_NoDup|].
-  split; [apply (stageB_names_NoDup key mt ab abs_eq)|].
-  intros x Hx Hb. apply (stageB_names_spec key mt ab abs_eq) in Hb. tauto.
+  unfold Filter.query. apply NoDup_app_iff. split; [apply stageA_NoDup|]. destruct bk.
+  - split; [apply (stageB_found_NoDup key mt ab abs_eq)|].
+    intros x Hx Hb. apply (stageB_found_spec key mt ab abs_eq) in Hb. tauto.
+  - split; [apply (stageB_names_NoDup key mt ab abs_eq)|].
+    intros x Hx Hb. apply (stageB_names_spec key mt ab abs_eq) in Hb. tauto.
 Qed.
 
 (* without stage-B elements (one root of the parent kind) nothing is yielded twice either *)
@@ -83,7 +84,7 @@ Proof.
   intro H. unfold Filter.query. rewrite (stageA_ext key mt ab nk parents parents' pats H []). reflexivity.
 Qed.
 
-Definition with_scan (parents : list ((str -> option id) * list id)) : list ((str -> option id) * list id) :=
+Definition with_scan (parents : list ((str -> list id) * list id)) : list ((str -> list id) * list id) :=
   map (fun pr => (scan_lookup key (snd pr), snd pr)) parents.
 
 Lemma lookup_ok_same_answers parents :
@@ -94,9 +95,9 @@ Proof.
 Qed.
 
 Lemma lookup_ok_parents_ok nk parents :
-  Forall (fun pr => lookup_ok key (fst pr) (snd pr) /\ uniq_keys key (snd pr)) parents -> parents_ok nk parents.
+  Forall (fun pr => lookup_ok key (fst pr) (snd pr)) parents -> parents_ok nk parents.
 Proof.
-  unfold parents_ok. induction 1 as [|[lk ch] rest [H1 H2] _ IH]; constructor; [|exact IH].
+  unfold parents_ok. induction 1 as [|[lk ch] rest H1 _ IH]; constructor; [|exact IH].
   cbn [fst snd] in *. apply (lookup_ok_parent_ok key mt ab abs_eq); assumption.
 Qed.
 
@@ -127,25 +128,25 @@ Qed.
 Definition w_key (e : id) : option str := match e with O => Some (s2l "a") | _ => None end.
 Definition w_pats : list str := [s2l "a"; s2l "a*"].
 
-(* get_instances(instance, ['a', 'a*']): the child named a is yielded twice *)
-Lemma witness_found_dup : run_query true false w_key true BFound [] [0] w_pats = [0; 0].
+(* the former witnesses of the duplicate yields (findings C13-K1, C13-K2), now yielded once:
+   get_instances(instance, ['a', 'a*']) *)
+Lemma witness_found_once : run_query true false w_key true BFound [] [0] w_pats = [0].
 Proof. vm_compute. reflexivity. Qed.
 
-(* get_definitions(instance, ['a', 'a*']) *)
-Lemma witness_names_dup : run_query true false w_key false (BNames false) [] [0] w_pats = [0; 0].
+(* get_instances(instance, ['a*', 'a']) and (instance, ['a', 'a']) *)
+Lemma witness_found_once_rev :
+  run_query true false w_key true BFound [] [0] [s2l "a*"; s2l "a"] = [0] /\
+  run_query true false w_key true BFound [] [0] [s2l "a"; s2l "a"] = [0].
+Proof. vm_compute. split; reflexivity. Qed.
+
+(* get_definitions / get_ports / get_cables (instance, ['a', 'a*']): the name is consumed *)
+Lemma witness_names_once : run_query true false w_key false BNames [] [0] w_pats = [0].
 Proof. vm_compute. reflexivity. Qed.
 
-(* get_ports / get_cables consume the name *)
-Lemma witness_names_del : run_query true false w_key false (BNames true) [] [0] w_pats = [0].
+(* get_instances([definition, instance-of-it], 'a*'): stage A finds the child, stage B leaves it alone *)
+Lemma witness_found_not_reiterated :
+  run_query true false w_key true BFound [(scan_lookup w_key [0], [0])] [0] [s2l "a*"] = [0].
 Proof. vm_compute. reflexivity. Qed.
-
-(* get_instances([definition, instance-of-it], 'a*'): stage A finds the child, stage B yields it again *)
-Lemma witness_found_reiterated :
-  run_query true false w_key true BFound [(scan_lookup w_key [0], [0])] [0] [s2l "a*"] = [0; 0].
-Proof. vm_compute. reflexivity. Qed.
-
-Lemma not_NoDup_00 : ~ NoDup [0; 0].
-Proof. intro H. inversion H as [|? ? Hn _]; subst. apply Hn. left. reflexivity. Qed.
 
 (* a non-trivial input satisfying the hypotheses of query_spec / query_perm / query_fast_eq_scan:
    a parent with children 1 2 3 named a, ab, b and two other elements 4 (a[0]) and 2 *)
@@ -154,7 +155,7 @@ Definition x_key (e : id) : option str :=
   | 1 => Some (s2l "a") | 2 => Some (s2l "ab") | 3 => Some (s2l "b") | 4 => Some (s2l "a[0]")
   | _ => None
   end.
-Definition x_parents : list ((str -> option id) * list id) := [(scan_lookup x_key [1; 2; 3], [1; 2; 3])].
+Definition x_parents : list ((str -> list id) * list id) := [(scan_lookup x_key [1; 2; 3], [1; 2; 3])].
 
 Example x_uniq : uniq_keys x_key [1; 2; 3].
 Proof.
@@ -170,26 +171,25 @@ Proof.
   split.
   - constructor; [|constructor]. cbn [fst snd].
     apply (scan_lookup_ok x_key (matches_b true false) (absolute_b true false) (patterns_abs_eq true false)).
-    exact x_uniq.
   - apply no_empty_good_pats. cbn. intros [H|[H|[]]]; discriminate.
 Qed.
 
 Example x_result :
-  run_query true false x_key false (BNames true) x_parents [4; 2] [s2l "a[0]"; s2l "a*"] = [1; 2; 4].
+  run_query true false x_key false BNames x_parents [4; 2] [s2l "a[0]"; s2l "a*"] = [1; 2; 4].
 Proof. vm_compute. reflexivity. Qed.
 
 (* ------------------------------------------------------------------------------------------ *)
 (* the statements about the stages with patterns.py plugged in (run_query / run_netlists / run_hier) *)
 
-Definition lookups_ok (key : id -> option str) (parents : list ((str -> option id) * list id)) : Prop :=
-  Forall (fun pr => lookup_ok key (fst pr) (snd pr) /\ uniq_keys key (snd pr)) parents.
+Definition lookups_ok (key : id -> option str) (parents : list ((str -> list id) * list id)) : Prop :=
+  Forall (fun pr => lookup_ok key (fst pr) (snd pr)) parents.
 
 Definition sel_match (ic ir : bool) (key : id -> option str) (pats : list str) (e : id) : bool :=
   any_match key (matches_b ic ir) pats e.
 
 Lemma lookups_ok_fst key parents : lookups_ok key parents ->
   Forall (fun pr => lookup_ok key (fst pr) (snd pr)) parents.
-Proof. induction 1 as [|pr rest [H _] _ IH]; constructor; assumption. Qed.
+Proof. intro H. exact H. Qed.
 
 Theorem run_query_spec ic ir key nk bk parents others pats :
   lookups_ok key parents -> ~ In [] pats -> forall e,
@@ -201,8 +201,8 @@ Proof.
   - apply no_empty_good_pats, Hp.
 Qed.
 
-Theorem run_query_NoDup_names ic ir key nk parents others pats :
-  NoDup (run_query ic ir key nk (BNames true) parents others pats).
+Theorem run_query_NoDup ic ir key nk bk parents others pats :
+  NoDup (run_query ic ir key nk bk parents others pats).
 Proof. apply (query_NoDup key _ _ (patterns_abs_eq ic ir)). Qed.
 
 Theorem run_query_NoDup_stageA ic ir key nk bk parents pats :
@@ -249,38 +249,20 @@ Definition filter_full_statement : Prop :=
         In e r <-> In e (run_query ic ir key nk bk parents others pats')) /\
     r = run_query ic ir key nk bk (with_scan key parents) others pats.
 
-(* what holds: everything except "no duplicates" for the stage-B shapes of get_instances /
-   get_libraries (BFound) and get_definitions (BNames false) *)
-Theorem filter_partial :
-  forall ic ir key nk bk parents others pats,
-    lookups_ok key parents -> ~ In [] pats ->
-    let r := run_query ic ir key nk bk parents others pats in
-    (forall e, In e r <-> is_cand key nk parents others e /\ sel_match ic ir key pats e = true) /\
-    (bk = BNames true \/ others = [] -> NoDup r) /\
-    (forall pats', Permutation pats pats' -> forall e,
-        In e r <-> In e (run_query ic ir key nk bk parents others pats')) /\
-    r = run_query ic ir key nk bk (with_scan key parents) others pats.
+Theorem filter_full : filter_full_statement.
 Proof.
   intros ic ir key nk bk parents others pats Hl Hp r. unfold r. split; [|split; [|split]].
   - apply run_query_spec; assumption.
-  - intros [->| ->]; [apply run_query_NoDup_names|apply run_query_NoDup_stageA].
+  - apply run_query_NoDup.
   - intros pats' HP. apply run_query_perm; assumption.
   - apply run_query_fast_eq_scan. exact Hl.
 Qed.
 
-Theorem filter_full_refuted : ~ filter_full_statement.
-Proof.
-  intro H. destruct (H true false w_key true BFound [] [0] w_pats) as (_ & Hnd & _).
-  - constructor.
-  - cbn. intros [E|[E|[]]]; discriminate.
-  - cbn zeta in Hnd. rewrite witness_found_dup in Hnd. exact (not_NoDup_00 Hnd).
-Qed.
-
-(* the hypotheses of filter_partial on a non-trivial input *)
+(* the hypotheses of filter_full on a non-trivial input *)
 Example x_lookups_ok : lookups_ok x_key x_parents /\ ~ In [] [s2l "a[0]"; s2l "a*"].
 Proof.
   split.
-  - constructor; [|constructor]. cbn [fst snd]. split; [intro p; reflexivity|exact x_uniq].
+  - constructor; [|constructor]. cbn [fst snd]. intro p. reflexivity.
   - cbn. intros [H|[H|[]]]; discriminate.
 Qed.
 
